@@ -751,6 +751,19 @@ func init() {
 			}
 			return mkBV(64, ^uint64(0))
 		},
+		"internal/abi.NoEscape":          func(r *Run, c *frame, fn *ssa.Function, a []Value) Value { return a[0] },
+		"(*strings.Builder).copyCheck": noop,
+		"(*strings.Builder).String": func(r *Run, c *frame, fn *ssa.Function, a []Value) Value {
+			// unsafe.String(unsafe.SliceData(b.buf), len(b.buf)): the bytes accumulated so far
+			st := (*a[0].(*Value)).(Struct)
+			buf, _ := st[1].(Slice)
+			bs := make([]Value, len(buf.S))
+			copy(bs, buf.S)
+			if cs, ok := bytesConst(bs); ok {
+				return constStr(cs)
+			}
+			return Str{IsBytes: true, Bytes: bs}
+		},
 		"internal/bytealg.MakeNoZero": func(r *Run, c *frame, fn *ssa.Function, a []Value) Value {
 			n := int(r.concInt(a[0], "MakeNoZero length"))
 			z := mkBV(8, 0)
